@@ -313,6 +313,8 @@ def run(rep):
     # ---- rule-shape family: the failing condition after a pass, in nested / break-ed blocks, in and/or/!, around attachment blocks ----
     import c04shapes
     rep.coverage['rule_shapes'] = c04shapes.stage(rep, tools, W)
+    import c04stdin; rep.coverage['stdin_delivery_faults'] = c04stdin.stage(rep, tools, W)     # the MDA contract under every failure of the delivery path
+    rep.coverage['stdin_unmatched'] = c04stdin.unmatched_witness(rep, tools)                 # F27: an unmatched stdin message is dropped with exit 0
     vlib.lean_conclude(rep)
     kinds = {}
     for r in results:
@@ -352,4 +354,7 @@ def replay(rep, path):
     if j.get('stage') == 'cmdstatus':
         tools = proc.Tools(sc)
         cmdstatus.replay_process(tools, world.WorldCheck(sc, tools), j)
+    if j.get('family') == 'stdin-delivery':
+        import c04stdin
+        c04stdin.replay(rep, proc.Tools(sc), j)
     rep.coverage.update({'evaluations': 1, 'distinct_nontrivial': 1})
